@@ -24,6 +24,7 @@ import (
 	"bytes"
 	"encoding/json"
 	"fmt"
+	"math/big"
 	"os"
 	"path/filepath"
 	"sort"
@@ -31,6 +32,7 @@ import (
 	"strings"
 
 	"github.com/aergoio/aergo-lib/db"
+	"github.com/aergoio/aergo/v2/internal/common"
 	"github.com/aergoio/aergo/v2/state"
 	"github.com/aergoio/aergo/v2/state/statedb"
 	"github.com/aergoio/aergo/v2/types"
@@ -40,7 +42,7 @@ import (
 // ---------------------------------------------------------------- operations
 
 type op struct {
-	kind    string // new put open stage set del csnap croll snap roll update commit reopen kill
+	kind    string // new put open stage set del csnap croll snap roll update commit reopen kill aget anonce abal areset aput code
 	a, b, c int
 }
 
@@ -50,11 +52,11 @@ func (o op) String() string {
 		return fmt.Sprintf("new %d %d", o.a, o.b)
 	case "put":
 		return fmt.Sprintf("put %d %d", o.a, o.b)
-	case "open", "stage", "csnap", "roll", "reopen":
+	case "open", "stage", "csnap", "roll", "reopen", "aget", "areset", "aput":
 		return fmt.Sprintf("%s %d", o.kind, o.a)
 	case "set":
 		return fmt.Sprintf("set %d %d %d", o.a, o.b, o.c)
-	case "del", "croll":
+	case "del", "croll", "anonce", "abal", "code":
 		return fmt.Sprintf("%s %d %d", o.kind, o.a, o.b)
 	}
 	return o.kind
@@ -110,12 +112,22 @@ func getUniverse(na, nk int) *universe {
 	return u
 }
 
-// token -> storage value bytes; token 0 is the empty (non-nil) value
+// token -> storage value bytes; token 0 is the empty (non-nil) value; every fifth token is a LARGE value
+// (200..4200 bytes: a write path that treats big values differently must not escape the oracles)
 func tokBytes(t int) []byte {
 	if t == 0 {
 		return []byte{}
 	}
-	return []byte("v" + strconv.Itoa(t))
+	b := []byte("v" + strconv.Itoa(t))
+	if t%5 == 3 {
+		b = append(b, bytes.Repeat([]byte("#"), 200+(t*37)%4000)...)
+	}
+	return b
+}
+
+// token -> contract code bytes (SetCode persists them at call time under their hash)
+func codeBytes(t int) []byte {
+	return []byte("code-" + strconv.Itoa(t) + strings.Repeat("!", (t*13)%300))
 }
 
 func bytesTok(b []byte) string {
@@ -126,9 +138,24 @@ func bytesTok(b []byte) string {
 		return "0"
 	}
 	if b[0] == 'v' {
-		return string(b[1:])
+		r := string(b[1:])
+		if i := strings.IndexByte(r, '#'); i >= 0 {
+			if len(b) != len(tokBytes(atoi(r[:i]))) {
+				return "?truncated" + r[:i]
+			}
+			r = r[:i]
+		}
+		return r
 	}
 	return "?" + fmt.Sprintf("%x", b)
+}
+
+func atoi(x string) int {
+	n, err := strconv.Atoi(x)
+	if err != nil {
+		return -1
+	}
+	return n
 }
 
 var hashTok = map[string]string{} // export value hash -> token ("d" for the delete marker)
@@ -141,6 +168,12 @@ func noteTok(t int) {
 	hashTok[string(statedb.VerifHash(tokBytes(t)))] = strconv.Itoa(t)
 }
 
+var codeTok = map[string]int{} // code hash -> token
+
+func noteCode(t int) {
+	codeTok[string(common.Hasher(codeBytes(t)))] = t
+}
+
 // ---------------------------------------------------------------- reference (the property's own notion of state)
 
 type sval struct {
@@ -148,8 +181,18 @@ type sval struct {
 	v       int
 }
 
+// aval: the fields of an account record this layer can see change
+type aval struct{ nonce, bal, code int }
+
+func (v aval) String() string {
+	if v.bal == 0 && v.code == 0 {
+		return strconv.Itoa(v.nonce)
+	}
+	return fmt.Sprintf("%d/%d/%d", v.nonce, v.bal, v.code)
+}
+
 type refStore struct {
-	acct    map[int]int          // account -> nonce (absent = no state)
+	acct    map[int]aval         // account -> record (absent = no state)
 	stor    map[int]map[int]int  // contract -> key -> token: what a reader of the StateDB sees
 	cached  map[int]bool         // contract has a staged storage
 	base    map[int]map[int]int  // content of the staged storage's trie (as of its last update)
@@ -160,6 +203,13 @@ type refStore struct {
 
 func copyII(m map[int]int) map[int]int {
 	r := make(map[int]int, len(m))
+	for k, v := range m {
+		r[k] = v
+	}
+	return r
+}
+func copyIA(m map[int]aval) map[int]aval {
+	r := make(map[int]aval, len(m))
 	for k, v := range m {
 		r[k] = v
 	}
@@ -187,10 +237,10 @@ func copyIIB(m map[int]map[int]bool) map[int]map[int]bool {
 	return r
 }
 func (r *refStore) clone() *refStore {
-	return &refStore{copyII(r.acct), copyIII(r.stor), copyIB(r.cached), copyIII(r.base), copyIB(r.dirty), copyIB(r.pendA), copyIIB(r.pendS)}
+	return &refStore{copyIA(r.acct), copyIII(r.stor), copyIB(r.cached), copyIII(r.base), copyIB(r.dirty), copyIB(r.pendA), copyIIB(r.pendS)}
 }
 func newRef() *refStore {
-	return &refStore{map[int]int{}, map[int]map[int]int{}, map[int]bool{}, map[int]map[int]int{}, map[int]bool{}, map[int]bool{}, map[int]map[int]bool{}}
+	return &refStore{map[int]aval{}, map[int]map[int]int{}, map[int]bool{}, map[int]map[int]int{}, map[int]bool{}, map[int]bool{}, map[int]map[int]bool{}}
 }
 func eqII(a, b map[int]int) bool {
 	if len(a) != len(b) {
@@ -206,9 +256,18 @@ func eqII(a, b map[int]int) bool {
 
 // a private (not yet staged) handle: writes on top of the content it was opened on
 type refHandle struct {
+	bound   bool // opened the way contract.Execute does: OpenContractState(id, accountState.State(), ...) - shares the held object's record
 	private bool
 	over    map[int]sval // private: key -> written value / deleted
 	opened  map[int]int  // private: content at open time
+}
+
+// a held AccountState object, by value: what GetAccountState saw (old) and the working copy (new).
+// sealed: it was put; the discipline of every caller in the repository is not to touch it again.
+type refHeld struct {
+	hasOld   bool
+	old, new aval
+	sealed   bool
 }
 
 type snapRec struct {
@@ -236,12 +295,16 @@ type session struct {
 	sdb     *statedb.StateDB
 	bs      *state.BlockState
 	handles map[int]*statedb.ContractState
+	held    map[int]*state.AccountState
 	snaps   []state.BlockSnapshot
 	roots   [][]byte
 
 	// reference + validity bookkeeping (nil in a bare replay)
 	ref       *refStore
 	rh        map[int]*refHandle
+	rheld     map[int]*refHeld
+	codes     map[int]bool // every code token a SetCode of this session wrote (reverted or not)
+	dig       *digests     // the undo logs by value after the previous operation (entries must never change)
 	snapRecs  []*snapRec
 	csnaps    map[int][]*csnapRec
 	committed []*refStore
@@ -268,8 +331,11 @@ func newSession(na, nk int, bare bool) *session {
 	s.sdb = statedb.NewStateDB(s.store, nil, false)
 	s.bs = state.NewBlockState(s.sdb)
 	s.handles = map[int]*statedb.ContractState{}
+	s.held = map[int]*state.AccountState{}
 	s.ref = newRef()
 	s.rh = map[int]*refHandle{}
+	s.rheld = map[int]*refHeld{}
+	s.codes = map[int]bool{}
 	s.csnaps = map[int][]*csnapRec{}
 	s.nextTok = 1
 	o := op{kind: "new", a: na, b: nk}
@@ -318,6 +384,14 @@ func (s *session) valid(o op) bool {
 			}
 		}
 		return false
+	case "aget":
+		return o.a < s.na
+	case "anonce", "abal", "areset", "aput":
+		h := s.rheld[o.a]
+		return h != nil && !h.sealed
+	case "code":
+		h, a := s.rh[o.a], s.rheld[o.a]
+		return s.handles[o.a] != nil && h != nil && h.bound && a != nil && !a.sealed
 	case "snap", "update", "commit", "kill":
 		return true
 	case "commit0":
@@ -351,6 +425,18 @@ func (s *session) killHandles() {
 	s.handles = map[int]*statedb.ContractState{}
 	s.rh = map[int]*refHandle{}
 	s.csnaps = map[int][]*csnapRec{}
+	s.killHeld()
+}
+
+// killHeld drops every held AccountState (end of a transaction; also before Update, whose updateStorage
+// rewrites the StorageRoot of buffered records in place - no caller keeps an AccountState across it).
+// Handles opened on a held object lose their binding.
+func (s *session) killHeld() {
+	s.held = map[int]*state.AccountState{}
+	s.rheld = map[int]*refHeld{}
+	for _, h := range s.rh {
+		h.bound = false
+	}
 }
 
 // apply executes one (valid) operation on the real code and on the reference; returns the head of the answer line.
@@ -366,17 +452,63 @@ func (s *session) apply(o op) string {
 		must(err)
 		as.SetNonce(uint64(o.b))
 		must(as.PutState())
-		s.ref.acct[o.a] = o.b
+		v := s.ref.acct[o.a]
+		v.nonce = o.b
+		s.ref.acct[o.a] = v
 		s.ref.pendA[o.a] = true
 		s.live = append(s.live, o)
+	case "aget":
+		as, err := state.GetAccountState(u.ids[o.a], s.sdb)
+		must(err)
+		s.held[o.a] = as
+		v, ok := s.ref.acct[o.a]
+		s.rheld[o.a] = &refHeld{hasOld: ok, old: v, new: v}
+		if h := s.rh[o.a]; h != nil {
+			h.bound = false // an open handle keeps the record of the object it was opened on
+		}
+		s.live = append(s.live, o)
+	case "anonce":
+		s.held[o.a].SetNonce(uint64(o.b))
+		s.rheld[o.a].new.nonce = o.b
+		s.live = append(s.live, o)
+	case "abal":
+		s.held[o.a].AddBalance(big.NewInt(int64(o.b)))
+		s.rheld[o.a].new.bal += o.b
+		s.live = append(s.live, o)
+	case "areset":
+		s.held[o.a].Reset()
+		s.rheld[o.a].new = s.rheld[o.a].old
+		s.live = append(s.live, o)
+	case "aput":
+		must(s.held[o.a].PutState())
+		s.rheld[o.a].sealed = true
+		s.ref.acct[o.a] = s.rheld[o.a].new
+		s.ref.pendA[o.a] = true
+		s.live = append(s.live, o)
+	case "code":
+		noteCode(o.b)
+		must(s.handles[o.a].SetCode(nil, codeBytes(o.b)))
+		s.rheld[o.a].new.code = o.b
+		s.codes[o.b] = true
+		head = s.showRaw()
+		s.live = append(s.live, o)
 	case "open":
-		cs, err := statedb.OpenContractStateAccount(u.ids[o.a], s.sdb)
+		var cs *statedb.ContractState
+		var err error
+		bound := false
+		if a := s.rheld[o.a]; a != nil && !a.sealed {
+			// the way contract.Execute / executeGovernanceTx open it: on the held object's working record
+			cs, err = statedb.OpenContractState(u.ids[o.a], s.held[o.a].State(), s.sdb)
+			bound = true
+		} else {
+			cs, err = statedb.OpenContractStateAccount(u.ids[o.a], s.sdb)
+		}
 		must(err)
 		s.handles[o.a] = cs
 		if s.ref.cached[o.a] {
-			s.rh[o.a] = &refHandle{}
+			s.rh[o.a] = &refHandle{bound: bound}
 		} else {
-			s.rh[o.a] = &refHandle{private: true, over: map[int]sval{}, opened: copyII(s.ref.stor[o.a])}
+			s.rh[o.a] = &refHandle{bound: bound, private: true, over: map[int]sval{}, opened: copyII(s.ref.stor[o.a])}
 		}
 		s.csnaps[o.a] = nil
 		s.live = append(s.live, o)
@@ -516,6 +648,7 @@ func (s *session) apply(o op) string {
 		s.killHandles()
 		s.live = append(s.live, o)
 	case "update", "commit", "commit0":
+		s.killHeld()
 		if o.kind != "commit0" {
 			must(s.sdb.Update())
 			s.refUpdate()
@@ -532,6 +665,7 @@ func (s *session) apply(o op) string {
 			s.ref.pendS = map[int]map[int]bool{}
 			c := s.ref.clone()
 			s.committed = append(s.committed, c)
+			head = s.showRaw()
 		}
 		s.invalidateAfter(-1)
 		s.live = append(s.live, o)
@@ -541,7 +675,7 @@ func (s *session) apply(o op) string {
 		s.killHandles()
 		c := s.committed[o.a]
 		s.ref = newRef()
-		s.ref.acct = copyII(c.acct)
+		s.ref.acct = copyIA(c.acct)
 		s.ref.stor = copyIII(c.stor)
 		s.invalidateAfter(-1)
 		s.live = append(s.live, o)
@@ -561,10 +695,27 @@ func (s *session) refUpdate() {
 		s.ref.base[c] = copyII(s.ref.stor[c])
 		if s.ref.dirty[c] {
 			if _, ok := s.ref.acct[c]; !ok {
-				s.ref.acct[c] = 0
+				s.ref.acct[c] = aval{}
 			}
 		}
 	}
+}
+
+// showRaw: which of the code tokens this session ever wrote are in the store right now ("raw=1,4"):
+// SetCode/SetRawKV write to the store at call time, not at Commit, and a rollback does not take them back.
+func (s *session) showRaw() string {
+	ts := []int{}
+	for t := range s.codes {
+		if s.store.Get(common.Hasher(codeBytes(t))) != nil {
+			ts = append(ts, t)
+		}
+	}
+	sort.Ints(ts)
+	ps := make([]string, len(ts))
+	for i, t := range ts {
+		ps[i] = strconv.Itoa(t)
+	}
+	return "raw=" + joinDot(ps, ",")
 }
 
 func (s *session) showSnap() string {
@@ -597,6 +748,7 @@ func joinDot(l []string, sep string) string {
 type reads struct {
 	acct []string
 	stor []string
+	has  []byte // ContractState.HasKey per (contract, key): '1' / '0'
 }
 
 func (s *session) handleOrTemp(c int) *statedb.ContractState {
@@ -616,7 +768,15 @@ func (s *session) read() reads {
 		if st == nil {
 			r.acct = append(r.acct, "-")
 		} else {
-			r.acct = append(r.acct, strconv.FormatUint(st.Nonce, 10))
+			v := aval{nonce: int(st.Nonce), bal: int(new(big.Int).SetBytes(st.Balance).Int64())}
+			if len(st.CodeHash) > 0 {
+				t, ok := codeTok[string(st.CodeHash)]
+				if !ok {
+					t = -1
+				}
+				v.code = t
+			}
+			r.acct = append(r.acct, v.String())
 		}
 	}
 	for c := 0; c < s.na; c++ {
@@ -625,6 +785,11 @@ func (s *session) read() reads {
 			v, err := cs.GetData(s.u.keys[k])
 			must(err)
 			r.stor = append(r.stor, bytesTok(v))
+			if cs.HasKey(s.u.keys[k]) {
+				r.has = append(r.has, '1')
+			} else {
+				r.has = append(r.has, '0')
+			}
 		}
 	}
 	return r
@@ -634,7 +799,7 @@ func (s *session) refReads() reads {
 	var r reads
 	for a := 0; a < s.na; a++ {
 		if n, ok := s.ref.acct[a]; ok {
-			r.acct = append(r.acct, strconv.Itoa(n))
+			r.acct = append(r.acct, n.String())
 		} else {
 			r.acct = append(r.acct, "-")
 		}
@@ -656,6 +821,23 @@ func (s *session) refReads() reads {
 				r.stor = append(r.stor, strconv.Itoa(v.v))
 			} else {
 				r.stor = append(r.stor, "-")
+			}
+			// HasKey: a surviving buffered write of the key (a delete marker counts) or a value in the storage trie
+			hk := false
+			if h != nil && h.private {
+				_, w := h.over[k]
+				_, t := h.opened[k]
+				hk = w || t
+			} else if s.ref.cached[c] {
+				_, t := s.ref.base[c][k]
+				hk = s.ref.pendS[c][k] || t
+			} else {
+				_, hk = s.ref.stor[c][k]
+			}
+			if hk {
+				r.has = append(r.has, '1')
+			} else {
+				r.has = append(r.has, '0')
 			}
 		}
 	}
@@ -804,7 +986,65 @@ func (r reads) line() string {
 	return "A " + strings.Join(r.acct, " ") + " | S " + strings.Join(r.stor, " ")
 }
 
+// full: the reads plus the HasKey bits
+func (r reads) full() string {
+	return r.line() + " | H " + string(r.has)
+}
+
 // ---------------------------------------------------------------- oracles
+
+// digests: every undo log by VALUE (key ++ marshalled value of each entry, oldest first). The Lean model and
+// the reference keep values; the code keeps pointers (*types.State handed to PutState, returned by GetState
+// without a copy, shared between AccountState and ContractState). They agree as long as an entry, once
+// written, never changes - which is checked here after every operation, on every log: an entry below the
+// current length must be byte-identical to what it was after the previous operation. The one place where
+// the code rewrites buffered records in place is StateDB.updateStorage (st.StorageRoot = ...), at Update:
+// no snapshot survives an Update, the comparison restarts there.
+type digests struct {
+	acct []string
+	stor map[int][]string
+	obj  map[int]interface{}
+}
+
+func (s *session) takeDigests() *digests {
+	d := &digests{acct: s.sdb.VerifEntryDigests(), stor: map[int][]string{}, obj: map[int]interface{}{}}
+	for _, id := range s.sdb.VerifCacheIDs() {
+		if c, ok := s.u.aidIx[id]; ok {
+			d.stor[c] = s.sdb.VerifCacheEntryDigests(id)
+			d.obj[c] = s.sdb.VerifCacheObj(id)
+		}
+	}
+	return d
+}
+
+func firstChanged(old, cur []string) int {
+	for i := 0; i < len(old) && i < len(cur); i++ {
+		if old[i] != cur[i] {
+			return i
+		}
+	}
+	return -1
+}
+
+func (s *session) checkLogs(o op) string {
+	cur := s.takeDigests()
+	old := s.dig
+	s.dig = cur
+	if old == nil || o.kind == "update" || o.kind == "commit" || o.kind == "commit0" || o.kind == "reopen" {
+		return ""
+	}
+	if i := firstChanged(old.acct, cur.acct); i >= 0 {
+		return fmt.Sprintf("entry %d of the account undo log changed in place (it was written by an earlier operation; a later rollback restores the changed value, not the one visible at snapshot time)", i)
+	}
+	for c, l := range cur.stor {
+		if old.obj[c] != nil && old.obj[c] == cur.obj[c] {
+			if i := firstChanged(old.stor[c], l); i >= 0 {
+				return fmt.Sprintf("entry %d of the undo log of contract %d's staged storage changed in place", i, c)
+			}
+		}
+	}
+	return ""
+}
 
 type failure struct {
 	what string
@@ -841,8 +1081,14 @@ func (s *session) step(o op) (string, reads, string, string) {
 	head := s.apply(o)
 	rd := s.read()
 	bad := ""
-	if want := s.refReads(); want.line() != rd.line() {
+	want := s.refReads()
+	if want.line() != rd.line() {
 		bad = fmt.Sprintf("after %q reads are [%s], the reference (maps with a snapshot stack) says [%s]", o.String(), rd.line(), want.line())
+	} else if string(want.has) != string(rd.has) {
+		bad = fmt.Sprintf("after %q HasKey answers [%s]; surviving buffered writes and trie content say [%s]", o.String(), rd.has, want.has)
+	}
+	if b := s.checkLogs(o); bad == "" && b != "" {
+		bad = fmt.Sprintf("after %q: %s", o.String(), b)
 	}
 	ex, b2 := s.exports(rd)
 	if bad == "" && b2 != "" {
@@ -854,15 +1100,34 @@ func (s *session) step(o op) (string, reads, string, string) {
 			bad = fmt.Sprintf("state root after %q differs from the root of a fresh StateDB that executed only the surviving operations %v", o.String(), opsString(s.live))
 		} else if o.kind != "update" {
 			a, b := dumpStore(s.store), dumpStore(r.store)
-			if len(a) != len(b) {
-				bad = fmt.Sprintf("persisted data after commit: %d pairs, %d pairs when only the surviving operations are executed", len(a), len(b))
-			} else {
-				for k, v := range a {
-					if w, ok := b[k]; !ok || w != v {
-						bad = "persisted data after commit differs from a run of only the surviving operations"
-						break
-					}
+			// code written by SetCode in a reverted span is in the store already (SetRawKV writes at call time,
+			// under the hash of the bytes); nothing else may distinguish the two stores
+			extra := map[string]string{}
+			for t := range s.codes {
+				if !r.codes[t] {
+					extra[string(common.Hasher(codeBytes(t)))] = string(codeBytes(t))
 				}
+			}
+			for k, v := range b {
+				if w, ok := a[k]; !ok || w != v {
+					bad = "persisted data after commit lacks (or has a different value for) a pair that a run of only the surviving operations persists"
+					break
+				}
+			}
+			nExtra := 0
+			for k, v := range a {
+				if _, ok := b[k]; ok {
+					continue
+				}
+				if w, ok := extra[k]; ok && w == v {
+					nExtra++
+					continue
+				}
+				bad = fmt.Sprintf("persisted data after commit: a pair (value of %d bytes) that a run of only the surviving operations does not persist, and that is not contract code written by a reverted SetCode", len(v))
+				break
+			}
+			if nExtra > 0 && s.count != nil {
+				s.count("commit-store-holds-code-of-reverted-SetCode")
 			}
 		}
 		if bad == "" {
@@ -902,7 +1167,7 @@ func class(what string) string {
 	if i := strings.Index(what, ":"); i > 0 && strings.HasPrefix(what, "panic") {
 		return "panic"
 	}
-	for _, k := range []string{"reads are", "state root", "persisted data", "exported", "not exported", "ascending", "differ from a run"} {
+	for _, k := range []string{"reads are", "HasKey", "changed in place", "state root", "persisted data", "exported", "not exported", "ascending", "differ from a run"} {
 		if strings.Contains(what, k) {
 			return k
 		}
@@ -949,7 +1214,7 @@ func (g *gen) record(s *session, o op) bool {
 		return false
 	}
 	nontrivial := o.kind != "new"
-	g.run.Op(o.String(), head+" | "+rd.line()+" | X "+ex, nontrivial)
+	g.run.Op(o.String(), head+" | "+rd.full()+" | X "+ex, nontrivial)
 	g.run.Count("op=" + o.kind)
 	if bad != "" {
 		g.fail(bad, s.all)
@@ -974,12 +1239,12 @@ func (g *gen) start(na, nk int) *session {
 	s.count = g.run.Count
 	rd := s.read()
 	ex, _ := s.exports(rd)
-	g.run.Op(s.all[0].String(), "ok | "+rd.line()+" | X "+ex, false)
+	g.run.Op(s.all[0].String(), "ok | "+rd.full()+" | X "+ex, false)
 	return s
 }
 
 // candidates: every valid next operation over the session's universe (values are fresh tokens).
-func (s *session) candidates(withC bool) []op {
+func (s *session) candidates(withC, withA bool) []op {
 	var l []op
 	tok := s.nextTok
 	if s.updated {
@@ -987,6 +1252,15 @@ func (s *session) candidates(withC bool) []op {
 	}
 	for a := 0; a < s.na; a++ {
 		l = append(l, op{kind: "put", a: a, b: tok})
+		if withA {
+			l = append(l, op{kind: "aget", a: a})
+			if h := s.rheld[a]; h != nil && !h.sealed {
+				l = append(l, op{kind: "anonce", a: a, b: tok}, op{kind: "abal", a: a, b: 1 + tok%7}, op{kind: "areset", a: a}, op{kind: "aput", a: a})
+				if rh := s.rh[a]; s.handles[a] != nil && rh != nil && rh.bound {
+					l = append(l, op{kind: "code", a: a, b: tok})
+				}
+			}
+		}
 	}
 	for c := 0; c < s.na; c++ {
 		if s.handles[c] == nil {
@@ -1028,7 +1302,7 @@ func (g *gen) exhaustive(na, nk, depth int, withC bool, sample func(level int) b
 		s.bare = true // oracles (ii) were evaluated when each prefix op was the last op
 		for _, o := range prefix {
 			s.apply(o)
-			if o.kind == "put" || o.kind == "set" {
+			if freshTok(o) {
 				s.nextTok++
 			}
 		}
@@ -1038,7 +1312,7 @@ func (g *gen) exhaustive(na, nk, depth int, withC bool, sample func(level int) b
 	}
 	walk = func(level int) {
 		s := rebuild()
-		cands := s.candidates(withC)
+		cands := s.candidates(withC, withC)
 		for _, o := range cands {
 			if sample != nil && !sample(level) {
 				continue
@@ -1061,7 +1335,7 @@ func (g *gen) exhaustive(na, nk, depth int, withC bool, sample func(level int) b
 		s := newSession(na, nk, false)
 		rd := s.read()
 		ex, _ := s.exports(rd)
-		return "ok | " + rd.line() + " | X " + ex
+		return "ok | " + rd.full() + " | X " + ex
 	}(), false)
 	walk(0)
 	return n
@@ -1072,19 +1346,36 @@ func (g *gen) random(length int) {
 	rng := g.run.Rng
 	na := 2 + rng.Intn(3)
 	nk := 2
-	if g.run.Thorough() && rng.Chance(1, 3) {
+	if rng.Chance(1, 4) {
 		nk = 3
 	}
+	if rng.Chance(1, 8) {
+		na, nk = 6, 4
+	}
 	s := g.start(na, nk)
+	g.run.Count(fmt.Sprintf("random-universe=%dx%d", na, nk))
 	inTx := -1 // index of the snapshot opened by the current "transaction", if any
 	for i := 0; i < length; i++ {
-		cands := s.candidates(true)
+		cands := s.candidates(true, true)
 		// weights: writes and snapshots dominate; update/commit/reopen are rare
 		w := make([]int, len(cands))
 		total := 0
 		for j, o := range cands {
 			switch o.kind {
 			case "put":
+				w[j] = 5
+			case "aget":
+				w[j] = 3
+				if s.rheld[o.a] != nil {
+					w[j] = 1
+				}
+			case "anonce", "abal":
+				w[j] = 4
+			case "areset":
+				w[j] = 4
+			case "aput":
+				w[j] = 7
+			case "code":
 				w[j] = 6
 			case "set":
 				w[j] = 8
@@ -1138,7 +1429,7 @@ func (g *gen) random(length int) {
 		}
 		if o.kind == "put" && rng.Chance(1, 10) {
 			if n, ok := s.ref.acct[o.a]; ok {
-				o.b = n
+				o.b = n.nonce
 			}
 		}
 		if o.kind == "snap" {
@@ -1147,7 +1438,7 @@ func (g *gen) random(length int) {
 		if !g.record(s, o) {
 			return
 		}
-		if o.kind == "put" || o.kind == "set" {
+		if freshTok(o) {
 			s.nextTok++
 		}
 	}
@@ -1160,11 +1451,147 @@ func (g *gen) random(length int) {
 	g.run.Count(fmt.Sprintf("random-session-live-snapshots-at-end=%d", min(depth, 6)))
 }
 
+func freshTok(o op) bool {
+	switch o.kind {
+	case "put", "set", "anonce", "abal", "code":
+		return true
+	}
+	return false
+}
+
 func min(a, b int) int {
 	if a < b {
 		return a
 	}
 	return b
+}
+
+// txShaped: sessions that look like what chain.executeTx / contract.Execute do with these objects: a block
+// snapshot per transaction; sender (and receiver) AccountStates obtained inside it; the contract opened on the
+// receiver's working record; storage writes, maybe a deploy (SetCode), maybe nested recovery points; then one
+// of: success (nonce, PutState of both, stage), a VM error (the handle is dropped, resetAccount = Reset +
+// fee + nonce + PutState on the sender), a fee-delegation VM error (resetAccount on sender and receiver), or
+// rejection (BlockState.Rollback). Blocks end with Update (+ Commit).
+func (g *gen) txShaped(ntx int) {
+	rng := g.run.Rng
+	na := 2 + rng.Intn(3)
+	nk := 2 + rng.Intn(2)
+	s := g.start(na, nk)
+	do := func(kind string, a, b, c int) bool {
+		o := op{kind: kind, a: a, b: b, c: c}
+		if !s.valid(o) {
+			panic(fmt.Sprintf("tx-shaped generator produced an invalid operation %q after %v", o.String(), opsString(s.all)))
+		}
+		ok := g.record(s, o)
+		if freshTok(o) {
+			s.nextTok++
+		}
+		return ok
+	}
+	for i := 0; i < ntx; i++ {
+		snd, rcv := rng.Intn(na), rng.Intn(na)
+		snapIx := len(s.snapRecs)
+		if !do("snap", 0, 0, 0) || !do("aget", snd, 0, 0) {
+			return
+		}
+		if rcv != snd && !do("aget", rcv, 0, 0) {
+			return
+		}
+		if rng.Chance(1, 2) && !do("abal", rcv, 1+rng.Intn(5), 0) { // SendBalance
+			return
+		}
+		call := rng.Chance(3, 4)
+		if call {
+			if !do("open", rcv, 0, 0) {
+				return
+			}
+			if rng.Chance(1, 4) && !do("code", rcv, s.nextTok, 0) {
+				return
+			}
+			for n := rng.Intn(4); n > 0; n-- {
+				var ok bool
+				switch rng.Intn(6) {
+				case 0:
+					ok = do("del", rcv, rng.Intn(nk), 0)
+				case 1:
+					ok = do("csnap", rcv, 0, 0)
+				case 2:
+					if l := s.csnaps[rcv]; len(l) > 0 {
+						ok = do("croll", rcv, l[rng.Intn(len(l))].rev, 0)
+					} else {
+						ok = do("set", rcv, rng.Intn(nk), s.nextTok)
+					}
+				default:
+					ok = do("set", rcv, rng.Intn(nk), s.nextTok)
+				}
+				if !ok {
+					return
+				}
+			}
+		}
+		outcome := rng.Intn(10)
+		switch {
+		case outcome < 4: // success
+			g.run.Count("txshape-success")
+			if !do("anonce", snd, s.nextTok, 0) || !do("aput", snd, 0, 0) {
+				return
+			}
+			if rcv != snd && !do("aput", rcv, 0, 0) {
+				return
+			}
+			if call && !do("stage", rcv, 0, 0) {
+				return
+			}
+			if !do("kill", 0, 0, 0) {
+				return
+			}
+		case outcome < 7: // VM error: resetAccount(sender, fee, nonce); fee delegation: also resetAccount(receiver, fee, nil)
+			g.run.Count("txshape-vm-error")
+			if !do("areset", snd, 0, 0) || !do("abal", snd, 1+rng.Intn(3), 0) || !do("anonce", snd, s.nextTok, 0) || !do("aput", snd, 0, 0) {
+				return
+			}
+			if rcv != snd && rng.Chance(1, 2) {
+				if !do("areset", rcv, 0, 0) || !do("abal", rcv, 1, 0) || !do("aput", rcv, 0, 0) {
+					return
+				}
+				// ... and the second resetAccount may fail after the first one has put: the executor rolls back
+				if rng.Chance(1, 2) {
+					g.run.Count("txshape-reject-after-reset-put")
+					if !do("roll", snapIx, 0, 0) {
+						return
+					}
+					continue
+				}
+			}
+			if !do("kill", 0, 0, 0) {
+				return
+			}
+		default: // rejected: NewTxExecutor rolls the block state back
+			g.run.Count("txshape-rejected")
+			if rng.Chance(1, 2) {
+				// a system error / timeout arrives after writes, puts and a stage
+				if !do("anonce", snd, s.nextTok, 0) || !do("aput", snd, 0, 0) {
+					return
+				}
+				if call && rng.Chance(1, 2) && !do("stage", rcv, 0, 0) {
+					return
+				}
+			}
+			if !do("roll", snapIx, 0, 0) {
+				return
+			}
+		}
+		if rng.Chance(1, 5) {
+			k := "update"
+			if rng.Chance(1, 2) {
+				k = "commit"
+			}
+			if !do(k, 0, 0, 0) {
+				return
+			}
+		}
+	}
+	do("commit", 0, 0, 0)
 }
 
 // scripted sessions: shapes the proofs case-split on
@@ -1185,6 +1612,19 @@ func (g *gen) scripted() {
 		// several Updates before a Commit, one with an unchanged buffer (pkg/trie storeNode defect, repaired in /repo d09c8a7f)
 		[]string{"new 2 2", "put 0 1", "update", "update", "commit0", "reopen 0"},
 		[]string{"new 2 2", "put 0 1", "put 1 2", "update", "put 0 3", "update", "open 1", "set 1 0 4", "stage 1", "update", "update", "commit", "reopen 0"},
+		// resetAccount on an account that already has a buffered record, then the executor rolls back
+		[]string{"new 2 2", "put 0 1", "snap", "aget 0", "areset 0", "abal 0 3", "anonce 0 2", "aput 0", "roll 0", "update", "commit0", "reopen 0"},
+		// AccountState objects held across snapshots (obtained before, used after; re-obtained after a rollback)
+		[]string{"new 2 2", "aget 0", "snap", "anonce 0 1", "aput 0", "snap", "aget 0", "abal 0 5", "aput 0", "roll 1", "aget 0", "areset 0", "anonce 0 4", "aput 0", "roll 0", "aget 0", "abal 0 2", "aput 0", "commit", "reopen 0"},
+		// deploy: SetCode through a handle opened on the receiver's working record; a reverted deploy leaves its code in the store
+		[]string{"new 2 2", "aget 1", "open 1", "code 1 1", "set 1 0 2", "stage 1", "aput 1", "commit", "snap", "aget 1", "open 1", "code 1 3", "set 1 1 4", "aput 1", "stage 1", "roll 0", "commit", "reopen 1", "reopen 0"},
+		// HasKey on a delete marker, before and after the deletion reaches the trie, and after a reverted re-write
+		[]string{"new 2 2", "open 0", "set 0 0 1", "stage 0", "commit", "open 0", "del 0 0", "stage 0", "snap", "open 0", "set 0 0 2", "stage 0", "roll 0", "update", "commit0", "reopen 1"},
+		// a storage staged empty before the snapshot, written and reverted: no account record may appear at Update
+		[]string{"new 2 2", "open 0", "stage 0", "snap", "open 0", "set 0 0 1", "stage 0", "roll 0", "update", "commit0", "reopen 0"},
+		[]string{"new 2 2", "open 0", "set 0 0 3", "del 0 0", "stage 0", "update", "commit0", "reopen 0"},
+		// only storage writes between snapshot and rollback (the account buffer's revision does not move)
+		[]string{"new 2 2", "open 1", "set 1 0 1", "stage 1", "snap", "open 1", "set 1 0 2", "set 1 1 8", "stage 1", "open 0", "set 0 0 13", "stage 0", "roll 0", "commit", "reopen 0"},
 	)
 	for _, sc := range scripts {
 		var s *session
@@ -1207,7 +1647,7 @@ func (g *gen) scripted() {
 		g.run.Count("scripted-session")
 	}
 	// ill-formed lines: the model must answer bad-op, never guess
-	for _, l := range []string{"new 2 2", "put 0", "set 0 0", "stage 1", "roll 7", "reopen 0", "croll 0 1", "frobnicate", "put x 1"} {
+	for _, l := range []string{"new 2 2", "put 0", "set 0 0", "stage 1", "roll 7", "reopen 0", "croll 0 1", "frobnicate", "put x 1", "aput 0", "anonce 1 2", "code 0 1", "aget"} {
 		if l == "new 2 2" {
 			g.start(2, 2)
 			continue
@@ -1290,8 +1730,14 @@ func main() {
 	})
 	run.Count(fmt.Sprintf("sampled-depth-%d-nodes=%d", depth+3, n2))
 
-	for i := 0; i < run.Pick(4000, 60000); i++ {
+	for i := 0; i < run.Pick(3000, 45000); i++ {
 		g.random(20 + rng.Intn(run.Pick(40, 80)))
+		if g.failures > 8 {
+			break
+		}
+	}
+	for i := 0; i < run.Pick(1200, 15000); i++ {
+		g.txShaped(3 + rng.Intn(run.Pick(8, 12)))
 		if g.failures > 8 {
 			break
 		}
